@@ -1,13 +1,17 @@
 #!/bin/sh
-# usage: tools/seedrun.sh <dir with patch.diff> <check id>...   -- applies the change to /repo, runs the quick checks, reverts
+# usage: tools/seedrun.sh <dir with patch.diff> <check id>...
+# Runs the quick checks against a scratch worktree of /repo's HEAD carrying the change (VERIF_REPO); /repo itself is not touched,
+# evidence and replays of these runs go to /verif/.work. (The same can be done in place: git -C /repo apply <patch>; ./check ...; git -C /repo checkout -- .)
 d=$(readlink -f "$1"); shift
 cd /verif
 export VERIF_EVIDENCE_DIR=/verif/.work/seed-evidence VERIF_REPLAY_DIR=/verif/.work/seed-replays
-if [ -n "$(git -C /repo status --porcelain)" ]; then echo "/repo not clean"; exit 2; fi
-git -C /repo apply "$d/patch.diff" || { echo APPLY-FAILED; exit 3; }
+wt=/tmp/seedrun-$$
+git -C /repo worktree add -q --detach "$wt" HEAD || exit 2
+if ! git -C "$wt" apply "$d/patch.diff" 2>/dev/null; then echo APPLY-FAILED; git -C /repo worktree remove --force "$wt"; exit 3; fi
+export VERIF_REPO="$wt"
 for c in "$@"; do
   out=$(./check "$c" --tier "${TIER:-quick}" 2>&1); rc=$?
   n=$(echo "$out" | grep -c '^VIOLATION')
   echo "$c rc=$rc violations_lines=$n :: $(echo "$out" | grep -m1 'what:' | cut -c1-220)"
 done
-git -C /repo checkout -- .
+git -C /repo worktree remove --force "$wt"
